@@ -205,7 +205,7 @@ def run_C10(w):
         r2 = random.Random(sub)
         ev = gen_events(r2)
         tail = r2.choice([0, 1, 1, 2, 3]) if not V310 else r2.choice([0, 0, 1, 3])
-        c10_input(w, {'kind': 'lineprog', 'events': ev, 'tail': tail, 'subseed': sub})
+        w.guard(c10_input, w, {'kind': 'lineprog', 'events': ev, 'tail': tail, 'subseed': sub})
     real_tables(w)
 
 
